@@ -199,6 +199,14 @@ class AbsEval(ConstEval):
                     raise AbsRaise("TypeError", str(ex))
             if base is None:
                 raise AbsRaise("TypeError", "None is not subscriptable")
+            if isinstance(base, AObj) and base.pytype == "Match" and not isinstance(e.slice, ast.Slice):
+                return base.attrs["group"](self.eval(e.slice, env, mod))
+            if isinstance(base, AObj) and getattr(base, "fields", None) and not isinstance(e.slice, ast.Slice):
+                k = self.eval(e.slice, env, mod)
+                if isinstance(k, int) and not isinstance(k, bool):
+                    if -len(base.fields) <= k < len(base.fields):
+                        return base.attrs[base.fields[k]]
+                    raise AbsRaise("IndexError", f"record index {k}")
             return super().eval(e, env, mod)
         if isinstance(e, ast.UnaryOp):
             v = self.eval(e.operand, env, mod)
@@ -370,10 +378,24 @@ class AbsEval(ConstEval):
         if isinstance(fv, Opaque) and fv.what.startswith("class ") and "." in fv.what[6:]:
             cm, cn = fv.what[6:].split(".", 1)
             if (cm, cn) in self.M.classes:
-                obj = AObj(cn, {}, cls_key=(cm, cn))
-                init = self.M.find_method((cm, cn), "__init__")
                 args = self.eval_args(e, env, mod)
                 kw = {k.arg: self.eval(k.value, env, mod) for k in e.keywords if k.arg}
+                return self.instantiate((cm, cn), args, kw)
+        try:
+            return super().call(e, env, mod)
+        except NotConstant as ex:
+            if "opaque argument" in str(ex) or "builtin failed" in str(ex):
+                raise NotConstant(f"call {ftxt} with abstract arguments is outside the interpreter's summaries")
+            raise
+
+    def instantiate(self, ck, args, kw=None):
+        """an abstract object of repository class ck initialised by the class's own __init__ (records: by their field list)"""
+        cm, cn = ck
+        kw = kw or {}
+        if True:
+            if True:
+                obj = AObj(cn, {}, cls_key=(cm, cn))
+                init = self.M.find_method((cm, cn), "__init__")
                 if init is not None:
                     self.call_func(FuncRef(init.mod, init.node), [obj] + args, kw)
                 else:
@@ -395,12 +417,6 @@ class AbsEval(ConstEval):
                             raise AbsRaise("TypeError", f"{cn}() missing argument {fname}")
                     obj.fields = [f_ for f_, _ in fields]
                 return obj
-        try:
-            return super().call(e, env, mod)
-        except NotConstant as ex:
-            if "opaque argument" in str(ex) or "builtin failed" in str(ex):
-                raise NotConstant(f"call {ftxt} with abstract arguments is outside the interpreter's summaries")
-            raise
 
     def regex_of(self, v, mod):
         """pattern string of a module-level compiled regex (an Opaque whose initialiser is `<...>compile(<constant pattern>)`)"""
@@ -431,7 +447,8 @@ class AbsEval(ConstEval):
                 raise AbsRaise("IndexError", str(ex))
             return r
         error_cls = re.error
-        return AObj("Match", {"group": group, "groupdict": (lambda: dict(m.groupdict())), "groups": (lambda: m.groups()), "start": m.start, "end": m.end, "span": m.span})
+        return AObj("Match", {"group": group, "groupdict": (lambda: dict(m.groupdict())), "groups": (lambda: m.groups()), "start": m.start, "end": m.end, "span": m.span,
+                              "string": m.string, "pos": m.pos, "endpos": m.endpos, "lastgroup": m.lastgroup, "lastindex": m.lastindex, "expand": m.expand})
 
     def builtin(self, name, args, kw, node):
         a0 = args[0] if args else None
